@@ -46,30 +46,6 @@ def get_haplotype_snv_indices(haplotype_snvs):
     return haplotype_idxs
 
 
-def get_sample_snv_ACP(vcf_record, haplotype_idxs, sample_ploidy):
-    _, n_pos = haplotype_idxs.shape
-    n_samples = len(vcf_record.samples)
-    out = np.zeros((n_pos, n_samples, 4))
-    for i, s in enumerate(vcf_record.samples):
-        ploidy = sample_ploidy[i]
-        counts = vcf_record.samples[s].get(FORMAT.ACP.id)
-        if counts is None:
-            freqs = vcf_record.samples[s].get(FORMAT.AFP.id)
-            if freqs is None:
-                out[:, i, :] = np.nan
-                continue
-            else:
-                counts = np.array(freqs) * ploidy
-        else:
-            counts = np.array(counts)
-        for h, c in enumerate(counts):
-            for p, a in enumerate(haplotype_idxs[h]):
-                out[p, i, a] += c
-    denom = np.sum(out, axis=-1, keepdims=True)
-    denom = np.where(denom == 0.0, np.nan, denom)
-    out /= denom
-    out *= sample_ploidy[None, :, None]
-    return out
 
 
 def format_allele_floats(array, alts_number, length='R', precision=3):
@@ -131,10 +107,6 @@ def get_sample_snv_GT(vcf_record, haplotype_idxs, sep='|'):
     return (snv_counts, np.array(sample_ploidy), out.T)
 
 
-def get_sample_snv_PQ(vcf_record):
-    n_pos = len(vcf_record.info[INFO.SNVPOS.id])
-    pq = np.array([d[FORMAT.SQ.id] for d in vcf_record.samples.values()]).astype('U')
-    return np.tile(pq, (n_pos, 1))
 
 
 def get_sample_snv_depth(vcf_record):
@@ -223,3 +195,36 @@ def atomize_vcf(path, command=None):
         if block is not None:
             block.to_csv(sys.stdout, sep='\t', index=False, header=False)
     vcf.close()
+
+
+def get_sample_snv_ACP(vcf_record, haplotype_idxs, sample_ploidy):
+    _, n_pos = haplotype_idxs.shape
+    n_samples = len(vcf_record.samples)
+    out = np.zeros((n_pos, n_samples, 4))
+    for i, s in enumerate(vcf_record.samples):
+        ploidy = sample_ploidy[i]
+        counts = vcf_record.samples[s].get(FORMAT.ACP.id)
+        if counts is None or None in counts:
+            freqs = vcf_record.samples[s].get(FORMAT.AFP.id)
+            if freqs is None or None in freqs:
+                out[:, i, :] = np.nan
+                continue
+            else:
+                counts = np.array(freqs) * ploidy
+        else:
+            counts = np.array(counts)
+        for h, c in enumerate(counts):
+            for p, a in enumerate(haplotype_idxs[h]):
+                out[p, i, a] += c
+    denom = np.sum(out, axis=-1, keepdims=True)
+    denom = np.where(denom == 0.0, np.nan, denom)
+    out /= denom
+    out *= sample_ploidy[None, :, None]
+    return out
+
+
+def get_sample_snv_PQ(vcf_record):
+    n_pos = len(vcf_record.info[INFO.SNVPOS.id])
+    pq = np.array([d[FORMAT.SQ.id] for d in vcf_record.samples.values()]).astype('U')
+    pq[pq == 'None'] = '.'
+    return np.tile(pq, (n_pos, 1))
